@@ -1231,6 +1231,10 @@ class WebSocketProtocol13(WebSocketProtocol):
                 data = bytes(self._fragmented_message_buffer)
                 self._fragmented_message_buffer = None
         else:  # start of new data message
+            if opcode not in (0x1, 0x2):
+                # reserved non-control opcode
+                self._abort()
+                return
             if self._fragmented_message_buffer is not None:
                 # can't start new message until the old one is finished
                 self._abort()
